@@ -20,7 +20,7 @@ KEEP_FUNCS = {"numpy.array", "numpy.asarray", "numpy.atleast_1d", "numpy.atleast
 KEEP_METHODS = {"copy", "transpose", "reshape", "ravel", "flatten", "tolist", "items", "keys", "values", "get",
                 "pop", "squeeze", "union", "intersection", "difference", "issubset", "issuperset", "to_numpy", "view"}
 # order / extremum / arithmetic: value sensitive on raw weights
-VALUE_FUNCS = {"numpy.sum", "numpy.prod", "numpy.mean", "numpy.cumsum", "numpy.dot", "numpy.matmul", "numpy.linalg.inv",
+VALUE_FUNCS = {"numpy.sum", "numpy.prod", "numpy.mean", "numpy.cumsum", "numpy.dot", "numpy.matmul", "numpy.linalg.inv", "numpy.linalg.pinv",
                "numpy.linalg.solve", "numpy.linalg.det", "numpy.maximum", "numpy.minimum", "numpy.max", "numpy.min",
                "numpy.amax", "numpy.amin", "numpy.argmax", "numpy.argmin", "numpy.sort", "numpy.argsort", "numpy.unique",
                "numpy.cov", "numpy.allclose", "numpy.isclose", "numpy.sign", "numpy.round", "numpy.trace",
@@ -52,7 +52,7 @@ ALIAS_METHODS = {"transpose", "reshape", "ravel", "squeeze", "view", "swapaxes",
                  "get", "setdefault", "pop", "__iter__"}
 ALIAS_ATTRS = {"T", "flat", "real", "imag", "base"}
 # methods that write their receiver
-MUTATING_METHODS = {"append", "extend", "insert", "pop", "remove", "clear", "sort", "reverse", "add", "discard",
+MUTATING_METHODS = {"__delitem__", "append", "extend", "insert", "pop", "remove", "clear", "sort", "reverse", "add", "discard",
                     "update", "fill", "setdefault", "popitem", "resize", "put", "itemset", "setflags", "partition",
                     "difference_update", "intersection_update", "symmetric_difference_update", "byteswap"}
 # functions that write argument k
